@@ -1,7 +1,16 @@
 (* C06 -- every RPC call gets exactly one correct return, in order, with pipelining.
-   Statements only.  Proved here at history level: one_return, question_ids (both halves: ids and
-   "each local call resolves exactly once"); the handler-level lemmas of the first round are kept
-   (`_partial`); delivery_order is covered by the correspondence run only. *)
+   Statements only.  Proved at history level, for all histories OF THE MACHINE (coq/Rpc/Rpc.v):
+   one_return, question_ids (ids and "each local call resolves exactly once").  What is NOT here:
+   - delivery_order (T2): differential run only;
+   - no_sender_leak (T1): the machine has no sender-lock component; the one place where the as-found
+     code kept the lock is a hand-placed [Stuck W_F14], refuted below on one history and excluded
+     for all histories by C06_answers_progress (no step is Stuck); the lock discipline of the real
+     code is C09's (C09_api_exits_hold_nothing);
+   - the content of results: [OReturnRes id ds] keeps the answer id and the capability descriptors
+     only, [LAppRes n cls] the class of the outcome (results / error / canceled / disconnected);
+   - the machine follows rpc.Conn only on histories in which the peer never answers a question
+     whose Call is still being built ([late_free], see C06_late_return_history): for those histories
+     the statements below are statements about rpc.Conn (via the differential run). *)
 From CV Require Import Rpc.Rpc Rpc.RpcSpec Rpc.RpcProofs Rpc.RpcInv Rpc.RpcResp Rpc.RpcLocal Rpc.RpcHist Rpc.RpcQids Rpc.RpcCalls Rpc.RpcRefuted.
 Open Scope Z_scope.
 
@@ -31,6 +40,27 @@ Theorem C06_return_is_targets : forall k r s s0 o0 ab id a, app_return cfg_fixed
   match r with ARExc => In (OReturnExc id) o0 | _ => exists ds, In (OReturnRes id ds) o0 end.
 Proof. exact app_return_result. Qed.
 Print Assumptions C06_return_is_targets.
+(* not vacuous (a reachable live state with a running answer), and all the machine keeps of the
+   content of a Return is the descriptor list: two different results give the same output *)
+Example C06_return_reached :
+  match run_o (init true) (firstn 2 (h_ret [FOther])) [] with
+  | Ok (s, _) => exists a, find_running 0 (s_ans s) = Some (1, a) /\ live s
+  | _ => False
+  end /\
+  match run_o (init true) (h_ret [FOther]) [], run_o (init true) (h_ret [FNull; FNull; FOther]) [] with
+  | Ok (_, o1), Ok (_, o2) => In (OReturnRes 1 []) o1 /\ o1 = o2
+  | _, _ => False
+  end.
+Proof. exact return_reached. Qed.
+Print Assumptions C06_return_reached.
+(* the local caller's side: a Return for a question that is neither canceled nor a bootstrap
+   resolves its call in the same step, with class 0 (results) only if it is a results Return and
+   class 1 (error) otherwise; by C06_call_resolves_once below this is the call's only resolution *)
+Theorem C06_return_resolves_kind : forall qid rpc k s s0 o0 ab q, handle_return cfg_fixed qid rpc k s = Ok (s0, o0, ab) ->
+  tget qid (s_qs s) = Some q -> q_fin q = false -> q_boot q = None ->
+  exists c, In (LAppRes (q_call q) c) o0 /\ (c = 0 \/ c = 1) /\ (c = 0 -> exists p, k = RkResults (Some p)).
+Proof. exact return_resolves_kind. Qed.
+Print Assumptions C06_return_resolves_kind.
 
 (* question_ids, first half: while the connection is up every Bootstrap / Call sent with question
    id [id] is matched by a Finish for [id] in the outbox, except the current use of the id
@@ -48,6 +78,18 @@ Theorem C06_new_question_is_free : forall q s s1 id, new_question q s = Ok (s1, 
   s_ndeliv s1 = s_ndeliv s /\ s_shut s1 = s_shut s.
 Proof. exact new_question_q. Qed.
 Print Assumptions C06_new_question_is_free.
+(* C06_question_ids is a statement about the machine for ALL histories; it is a statement about
+   rpc.Conn for [late_free] histories: no Return names a question whose Call is still being built
+   (a call inside PlaceArgs, [AHold]).  A peer that keeps to the protocol cannot send such a
+   Return.  On the history below (the 4th event answers the held question 0) the machine issues
+   id 0 twice with a Finish between and never sends the held call's Call; rpc.Conn writes that
+   Call after PlaceArgs with the freed id, so id 0 is on the wire twice without a Finish
+   (corpus/C06-rpc.txt, known finding "heldret": the peer broke the protocol first). *)
+Example C06_late_return_history : late_free (init true) h_late = false /\
+  late_free (init true) (firstn 3 h_late) = true /\
+  match run_o (init true) h_late [] with Ok (_, o) => calls0 o = 2%nat /\ cnt (is_finish 0) o = 2%nat | _ => False end.
+Proof. exact late_return_history. Qed.
+Print Assumptions C06_late_return_history.
 (* question_ids, second half -- every local call resolves exactly once.  [is_res n] recognises the
    resolution [LAppRes n _] of local call number n; [hold n] counts the places that still hold call
    n: unfinished questions carrying it ([HQ]), running direct deliveries to a local server ([HL]),
@@ -122,6 +164,7 @@ Print Assumptions C06_cancel_sends_finish.
    wedges the connection (3 messages); the repaired machine handles the history *)
 Theorem C06_F14_refuted : outcome without14 h14 = - W_F14 /\ outcome cfg_fixed h14 = 0.
 Proof. exact F14_refuted. Qed.
+Print Assumptions C06_F14_refuted.
 (* delivery_order (stretch, NOT proved): calls addressed to one capability reach the application
    in send order, including calls queued behind unreturned answers ([drain]) and calls held by an
    embargo ([wake_calls]); before the repair of F23 server/answer.go resolved a call queued behind
